@@ -1,0 +1,7 @@
+//go:build !verif
+// +build !verif
+
+package hashgraph
+
+// verifDBWrite is a no-op unless built with -tags verif (verification hooks).
+func verifDBWrite(kind string) {}
